@@ -450,6 +450,9 @@ func propCases(res *Result, prop, tier string, g *Gen, n int, batch int) []*Case
 		cases = append(cases, hiddenCases(g, n)...)
 	case "C04":
 		cases = append(cases, c04Cases(g, n/3, tier == "thorough")...)
+		if batch == 0 {
+			cases = append(cases, emptyTextCases("C04", g)...)
+		}
 	case "C11":
 		cases = append(cases, pairCases(g)...)
 		cases = append(cases, annotCases(g, n/2)...)
@@ -457,6 +460,9 @@ func propCases(res *Result, prop, tier string, g *Gen, n int, batch int) []*Case
 	case "C01", "C02", "C08", "C10", "C14":
 		cases = append(cases, pairCases(g)...)
 		cases = append(cases, genCases(g, n)...)
+		if prop == "C02" && batch == 0 {
+			cases = append(cases, emptyTextCases("C02", g)...)
+		}
 	case "C13":
 		cases = append(cases, pairCases(g)...)
 		cases = append(cases, multiCases(g, n)...)
